@@ -277,4 +277,150 @@ theorem parseLeaderAux_block (hs : List (Str × Str)) :
       simp only [List.length_cons] at hc; omega
 
 
+def isDigitC (c : Char) : Prop := '0' ≤ c ∧ c ≤ '9'
+
+theorem digit_char : ∀ d, d < 10 → ('0' ≤ Char.ofNat (48 + d) ∧ Char.ofNat (48 + d) ≤ '9') ∧ (Char.ofNat (48 + d)).toNat - 48 = d
+    ∧ isSpaceC (Char.ofNat (48 + d)) = false ∧ (Char.ofNat (48 + d)).toNat < 128
+    ∧ Char.ofNat (48 + d) ≠ '-' ∧ Char.ofNat (48 + d) ≠ '+' := by
+  decide +kernel
+
+theorem natStr_digits (n : Nat) : ∀ c ∈ natStr n, isDigitC c ∧ isSpaceC c = false ∧ c.toNat < 128 := by
+  induction n using Nat.strongRecOn with
+  | _ n ih =>
+    rw [natStr]
+    split
+    · rename_i h
+      intro c hc
+      simp only [List.mem_singleton] at hc
+      subst hc
+      have := digit_char n h
+      exact ⟨this.1, this.2.2.1, this.2.2.2.1⟩
+    · intro c hc
+      simp only [List.mem_append, List.mem_singleton] at hc
+      rcases hc with hc | hc
+      · exact ih (n / 10) (by omega) c hc
+      · subst hc
+        have := digit_char (n % 10) (by omega)
+        exact ⟨this.1, this.2.2.1, this.2.2.2.1⟩
+
+theorem digitsVal_append (xs ys : Str) (a : Nat) :
+    digitsVal (xs ++ ys) a = (digitsVal xs a).bind (fun v => digitsVal ys v) := by
+  induction xs generalizing a with
+  | nil => simp [digitsVal]
+  | cons x xs ih =>
+    simp only [List.cons_append, digitsVal]
+    split
+    · exact ih _
+    · simp
+
+theorem digitsVal_natStr (n : Nat) : digitsVal (natStr n) 0 = some n := by
+  induction n using Nat.strongRecOn with
+  | _ n ih =>
+    rw [natStr]
+    split
+    · rename_i h
+      have := digit_char n h
+      simp [digitsVal, this.1, this.2.1]
+    · rename_i h
+      have := digit_char (n % 10) (by omega)
+      rw [digitsVal_append, ih (n / 10) (by omega)]
+      simp [digitsVal, this.1, this.2.1]
+      omega
+
+theorem natStr_ne_nil (n : Nat) : natStr n ≠ [] := by
+  rw [natStr]; split <;> simp
+
+theorem natStr_head (n : Nat) : ∃ c cs, natStr n = c :: cs ∧ c ≠ '-' ∧ c ≠ '+' := by
+  induction n using Nat.strongRecOn with
+  | _ n ih =>
+    rw [natStr]
+    split
+    · rename_i h
+      have := digit_char n h
+      exact ⟨_, [], rfl, this.2.2.2.2.1, this.2.2.2.2.2⟩
+    · obtain ⟨c, cs, he, h1, h2⟩ := ih (n / 10) (by omega)
+      exact ⟨c, cs ++ [Char.ofNat (48 + n % 10)], by rw [he]; rfl, h1, h2⟩
+
+theorem stripC_id (t : Str) (h : ∀ c ∈ t, isSpaceC c = false) : stripC t = t := by
+  unfold stripC
+  rw [dropWhile_all_false _ _ h, dropWhile_all_false _ _ (by intro x hx; exact h x (by simpa using hx))]
+  simp
+
+theorem pyIntDec_natStr (n : Nat) : pyIntDec (natStr n) = .ok (some (n : Int)) := by
+  unfold pyIntDec
+  have hd := natStr_digits n
+  have h128 : (natStr n).any (fun c => decide (c.toNat ≥ 128)) = false := by
+    rw [List.any_eq_false]; intro c hc; have := (hd c hc).2.2; simp; omega
+  simp only [h128, Bool.false_eq_true, if_false]
+  rw [stripC_id _ (fun c hc => (hd c hc).2.1)]
+  obtain ⟨c, cs, he, h1, h2⟩ := natStr_head n
+  have hdv := digitsVal_natStr n
+  rw [he] at hdv ⊢
+  have : signSplit (c :: cs) = (false, c :: cs) := by
+    unfold signSplit
+    split
+    · rename_i r heq; cases heq; exact absurd rfl h1
+    · rename_i r heq; cases heq; exact absurd rfl h2
+    · rfl
+  simp [this, hdv]
+
+theorem contentLength_natStr (n : Nat) : contentLength (some (natStr n)) = .ok (some n) := by
+  unfold contentLength
+  have hne : (natStr n).isEmpty = false := by
+    cases h : natStr n with
+    | nil => exact absurd h (natStr_ne_nil n)
+    | cons _ _ => rfl
+  simp [hne, pyIntDec_natStr]
+
+
+theorem splitWsGo_word (w rest cur : Str) (hw : ∀ c ∈ w, isSpaceC c = false) :
+    splitWsGo (w ++ rest) cur = splitWsGo rest (w.reverse ++ cur) := by
+  induction w generalizing cur with
+  | nil => rfl
+  | cons c w ih =>
+    have hc : isSpaceC c = false := hw c (by simp)
+    simp only [List.cons_append, splitWsGo, hc, Bool.false_eq_true, if_false]
+    rw [ih _ (fun x hx => hw x (by simp [hx]))]
+    simp
+
+theorem splitWsGo_space (rest cur : Str) (hcur : cur ≠ []) :
+    splitWsGo (' ' :: rest) cur = cur.reverse :: splitWsGo rest [] := by
+  have : isSpaceC ' ' = true := by decide
+  have hc : cur.isEmpty = false := by cases cur <;> simp_all
+  simp [splitWsGo, this, hc]
+
+/-- three blank-free, non-empty words separated by single spaces -/
+theorem splitWs_three (a b c : Str) (ha : ∀ x ∈ a, isSpaceC x = false) (hb : ∀ x ∈ b, isSpaceC x = false)
+    (hc : ∀ x ∈ c, isSpaceC x = false) (hane : a ≠ []) (hbne : b ≠ []) (hcne : c ≠ []) :
+    splitWs (a ++ ' ' :: (b ++ ' ' :: c)) = [a, b, c] := by
+  unfold splitWs
+  rw [splitWsGo_word a _ [] ha, splitWsGo_space _ _ (by simpa using hane)]
+  rw [splitWsGo_word b _ [] hb, splitWsGo_space _ _ (by simpa using hbne)]
+  have := splitWsGo_word c [] [] hc
+  simp only [List.append_nil] at this
+  rw [this]
+  have hce : c.reverse.isEmpty = false := by cases c <;> simp_all
+  simp [splitWsGo, hce]
+
+
+/-- a request on the wire: request line, header lines, empty line, body -/
+def requestBytes (method target : Str) (hs : List (Str × Str)) (body : Bytes) : Bytes :=
+  (method ++ ' ' :: (target ++ ' ' :: "HTTP/1.1".toList)).map Char.toNat ++ crlf ++ headerBlock hs ++ crlf ++ body
+
+/-- printable ASCII without blanks -/
+def Visible (s : Str) : Prop := s ≠ [] ∧ ∀ c ∈ s, 33 ≤ c.toNat ∧ c.toNat < 127
+
+theorem visible_nospace {s : Str} (h : Visible s) : ∀ c ∈ s, isSpaceC c = false := by
+  intro c hc
+  have := h.2 c hc
+  unfold isSpaceC
+  simp
+  omega
+
+theorem methods_visible : ∀ m ∈ METHODS, Visible m := by
+  intro m hm
+  simp only [METHODS, List.map_cons, List.map_nil, List.mem_cons, List.not_mem_nil, or_false] at hm
+  rcases hm with rfl | rfl | rfl | rfl | rfl | rfl | rfl | rfl | rfl <;> (unfold Visible; decide)
+
+
 end Ioflo.HttpCodec
